@@ -114,7 +114,7 @@ def iteration_job(job):
             r2 = lines_impl.run_case(t2, cfg)
             probes.append({"line": i + 1, "comment": fl[i], "out": r2["out"], "error": r2["error"]})
     return {"texts": texts, "first": results[0], "last_out": results[-1]["out"], "last_error": results[-1]["error"],
-            "ended": ended, "probes": probes, "runs": [{"raw": x["raw"], "error": x["error"]} for x in results]}
+            "ended": ended, "probes": probes, "runs": [{"raw": x["raw"], "error": x["error"], "first_code": (x["out"][0][0] if x["out"] else None)} for x in results]}
 
 
 def pool(fn, jobs, workers=6):
@@ -478,7 +478,13 @@ def run(tier: str, replay: str | None = None):
                 # where was the comment inserted?  first differing line
                 nl = seq[j + 1].splitlines()
                 ins = next((k for k, (a, b) in enumerate(zip(lines + [None], nl), 1) if a != b), None)
-                if ins is not None and len(nl) == len(lines) + 1:
+                if ins is not None and len(nl) == len(lines) and r["runs"][j].get("first_code") not in ("unused_ignore", "bare_ignore"):
+                    # a trailing comment: no line moves
+                    want = collections.Counter((c, ln, col) for _, c, ln, col, _ in raw)
+                    got = collections.Counter((c, ln, col) for _, c, ln, col, _ in r["runs"][j + 1]["raw"])
+                    if want != got:
+                        shift_violations.append({"text": t, "trailing_at": ins, "raw_before": raw, "raw_after": r["runs"][j + 1]["raw"]})
+                elif ins is not None and len(nl) == len(lines) + 1:
                     want = collections.Counter((c, (ln + 1 if ln >= ins else ln), col) for _, c, ln, col, _ in raw)
                     got = collections.Counter((c, ln, col) for _, c, ln, col, _ in r["runs"][j + 1]["raw"])
                     if want != got:
@@ -491,6 +497,7 @@ def run(tier: str, replay: str | None = None):
         except RuntimeError as ex:
             rep.violation({"kind": "broken-correspondence", "correspondence": "Fixer.fix_step vs check_for_test(apply_changes=True, add_ignores=True)", "detail": str(ex)[-1500:]}, no_failing_input=True)
     model_out = {}
+    hist_outside = [0]
     for i, ((text, cfg), r) in enumerate(zip(iter_cases, res_a)):
         if (i, 0) not in model_steps:
             continue
@@ -505,6 +512,12 @@ def run(tier: str, replay: str | None = None):
             if nxt is None:
                 # the implementation stopped here: fixpoint (model must propose nothing), or the limit, or a broken file
                 if r["ended"] and n != 0:
+                    ok, first_bad = False, j
+            elif r["runs"][j].get("first_code") in ("unused_ignore", "bare_ignore"):
+                # the replacement applied is the report's own one (remove / strip the unused comment):
+                # built by show_errors_for_unused_ignores, outside the model (fix_step = None there)
+                hist_outside[0] += 1
+                if n != 0:
                     ok, first_bad = False, j
             elif n != 1 or files[0] != nxt:
                 ok, first_bad = False, j
@@ -569,15 +582,9 @@ def run(tier: str, replay: str | None = None):
         cont = continuation_lines(text)
         err_lines = {d[1] for d in d0}
         en = c11.enabled_names(cfg, names, dit)
-        if "unused_ignore" in en:
-            fid = "C16-unused-ignore-enabled"
-        elif bits is not None and bits["base"] and not bits["one"]:
-            fid = "C16-two-codes-one-line"
-        elif bits is not None and bits["base"] and not bits["prev"]:
-            fid = "C16-two-codes-one-line"
-        elif bits is not None and bits["base"] and not bits["pos"]:
-            fid = "C16-first-code-line"
-        elif err_lines & cont:
+        # the one class left after the repair: the reported line is inside a multi-line string literal, or
+        # itself ends in a backslash (then the comment line still goes above it)
+        if (err_lines & cont) or (bits is not None and not bits["guard"] and bits["base"]):
             fid = "C16-continuation-line"
         if fid in known and agree:
             hist["attributed_" + fid] += 1
@@ -723,6 +730,7 @@ def run(tier: str, replay: str | None = None):
         iteration_cases=len(iter_cases),
         fix_cases=len(fix_cases),
         model_runs=len(model_steps),
+        steps_outside_model=hist_outside[0],
         shift_assumption_violations=len(shift_violations),
         correspondence_mismatches=len(corr_mismatch),
         apply_changes_compared=len(apply_meta),
